@@ -62,4 +62,37 @@ PROPS = {
         'rule': 'flag words: every single bit 0-30, all-known, all-known plus each unknown bit, random known/unknown mixtures (thorough: every subset of the known flags); header alterations: flag xor masks and argument-count deltas applied to a family of base code objects with code.replace / types.CodeType',
         'exhaustive': {'thorough': False},
     },
+    'C07': {
+        'theorems': [],
+        'eval_keys': ['documents'],
+        'rule': PROGRAM_RULE + '; each decoded and normalized CodeData, plus synthetic CodeData with generated constants (nested tuples/frozensets to depth 4, edge floats/ints/strings/bytes/complex, lone surrogates) in every position; distinct = distinct documents',
+    },
+    'C08': {
+        'theorems': [],
+        'eval_keys': ['pairs', 'fields_checked'],
+        'rule': 'pairs of Constant values built from generated constants and their fresh-identity / numerically-equal companions, partition compared with ctypes _PyCode_ConstantKey; pairs of CodeData obtained by different routes (decode twice, JSON load, normalize); every field of every dataclass for immutability',
+    },
+    'C12': {
+        'claimed': True,
+        'level_text': "Proved about a heap model of the dict/list manipulation in _json_data.py (documents as nodes with identities; copy = allocation, d[k]=v = write, reads return references): in any heap, from_json_data writes only into nodes it allocated itself, so for every JSON document no node of the caller's document is modified (C12_from_json_frame, C12_from_json_modifies_nothing). This is deliberately a small proved core: that from_code/to_code/normalize/to_json_data do not modify their arguments rests on the immutability of code objects, frozen dataclasses and tuples (a Python runtime fact), and repeatability / absence of shared mutable state between calls is decided by the correspondence and the direct oracle: deep identity snapshots of every argument before and after each call over random interleaved call histories, 1st vs n-th result, mutation of returned documents.",
+        'theorems': ['CDV.Props.C12.C12_from_json_frame', 'CDV.Props.C12.C12_from_json_modifies_nothing'],
+        'modules': ['CDVProofs.Heap', 'CDVProofs.Props.C12'],
+        'eval_keys': ['calls'],
+        'rule': 'random interleaved histories of from_code / to_code / normalize / to_json_data / from_json_data on a fixed pool of objects per program (repeated calls included), with deep snapshots (structure + node identities) of the argument before and after every call; distinct = distinct programs',
+    },
+    'C15': {
+        'theorems': [],
+        'interps': ['3.7', '3.8', '3.9', '3.10', '3.11', '3.12', '3.13'],
+        'shards': {'quick': 2, 'thorough': 2},
+        'eval_keys': ['documents'],
+        'rule': 'documents written by to_json_data under each of 3.7-3.10 (producers run as subprocesses) loaded, re-dumped and normalized under each of 3.7-3.13; canonical dumps compared byte for byte; distinct = distinct documents',
+    },
+    'C16': {
+        'claimed': True,
+        'level_text': "Proved about a model of the decision logic of _cli.main only: the command accepts exactly the four ways of giving exactly one source, 'given' meaning present (not truthy); what is printed is normalize(decode) by default and decode with --no-normalize, and --json is to_json_data of that same value (C16_validation, C16_usage_error, C16_printed, C16_json, C16_default_is_normal). argparse, compile, printing and exit statuses are process behaviour no model here expresses: they are decided by the direct oracle - code_data._cli.main run in a subprocess on each of 3.7-3.10 over source kinds x flag combinations, stdout parsed back (repr evaluated, JSON loaded, --dis-after compared with --dis) and compared with the in-process API - and the accept/reject decision is compared with the model on every run.",
+        'theorems': ['CDV.Props.C16.C16_validation', 'CDV.Props.C16.C16_usage_error', 'CDV.Props.C16.C16_printed', 'CDV.Props.C16.C16_json', 'CDV.Props.C16.C16_default_is_normal'],
+        'modules': ['CDVProofs.Props.C16'],
+        'eval_keys': ['invocations', 'usage_invocations'],
+        'rule': 'subprocess invocations: programs x {file, -c, -e} x subsets of the five output flags; every subset of the four source options with empty and non-empty values (usage errors); distinct = distinct (source kind, program, flags)',
+    },
 }
